@@ -129,9 +129,14 @@ def run_case(case):
             # a generous budget that never expires must not change anything
             call['budget'] = rng.choice([{'inference_timeout': 1000}, {'total_timeout': 2000},
                                          {'total_timeout': 2000, 'inference_timeout': 900, 'preprocessing_timeout': 900}])
+        if 'budget' not in call and rng.random() < 0.12:
+            # a per-query budget that has run out before the query starts (preprocessing is not budgeted and
+            # completes): its rows may be flagged; what is asked AFTERWARDS on the same manager must not notice
+            call['budget'] = {'inference_timeout': 1e-9}
+            call['tiny'] = True
         if multi:
             call['delays'] = {str(k_): round(rng.choice([0, 0, 0.05, 0.1, 0.2, 0.3]), 2) for k_ in keys}
-            if rng.random() < 0.25 and len(idxs) >= 2:
+            if rng.random() < 0.25 and len(idxs) >= 2 and not call.get('tiny'):
                 call['hang'] = keys[rng.randrange(len(keys))]
         script.append(call)
 
@@ -155,7 +160,9 @@ def run_case(case):
             tag = 'call%d%s' % (ci + 1, '/parallel' if call['multi'] else '/sequential')
             if ci:
                 bump('second_or_later_calls')
-            if call.get('budget'):
+            if call.get('tiny'):
+                bump('calls_with_expired_per_query_budget')
+            elif call.get('budget'):
                 bump('calls_with_generous_budget')
             import time as _time
             t_call = _time.time()
@@ -222,7 +229,11 @@ def run_case(case):
                         viol('history:hung-worker-row-not-flagged', script=script, call=tag, row=j,
                              got=[got_res[j], got_to[j]])
                     continue
-                if got_to[j]:
+                if got_to[j] and call.get('tiny'):
+                    bump('rows_flagged_by_expired_per_query_budget')
+                    if got_res[j]:
+                        viol('history:flagged-row-with-True', script=script, call=tag, row=j, query=texts[i])
+                elif got_to[j]:
                     if call['multi'] and t_call > 8.0:
                         # the library joins workers with a real 10 s allowance when no budget is set: on an
                         # overloaded machine a slow worker may really be timed out — environment, not a verdict
@@ -232,7 +243,7 @@ def run_case(case):
                              script=script, call=tag, row=j, query=texts[i])
                 elif got_res[j] != ref[i]:
                     viol('history:answer-differs-from-fresh-single-query:%s%s' % ('later-call' if ci else 'first-call',
-                                                                                  ':with-budget' if call.get('budget') else ''),
+                                                                                  ':with-expired-budget' if call.get('tiny') else ':with-budget' if call.get('budget') else ''),
                          script=script, call=tag, row=j, query=texts[i], got=got_res[j], fresh=ref[i])
     finally:
         mon.cleanup()
